@@ -1,6 +1,6 @@
 /-
 `#audit_module M` prints, for every (non-internal) theorem declared in module `M`,
-one line `AUDIT <name> [<axioms>]`.  The harness runs it for `Clem.Props.Cxx` and
+one line `AUDIT <name> [<axioms>]` (sub-modules `M.*` included).  The harness runs it for `Clem.Props.Cxx` and
 requires every axiom list ⊆ {propext, Classical.choice, Quot.sound}.
 -/
 import Lean
@@ -8,11 +8,15 @@ open Lean Elab Command
 
 elab "#audit_module " m:ident : command => do
   let env ← getEnv
-  let some idx := env.getModuleIdx? m.getId
-    | throwError "unknown module {m.getId}"
+  -- the module itself and every sub-module `M.*`
+  let pre := m.getId
+  let mods := env.header.moduleNames
   let mut names : Array Name := #[]
   for (n, ci) in env.constants.map₁.toList do
-    if env.getModuleIdxFor? n == some idx && !n.isInternalDetail then
+    let inMod := match env.getModuleIdxFor? n with
+      | some i => pre.isPrefixOf (mods[i.toNat]!)
+      | none => false
+    if inMod && !n.isInternalDetail then
       if let .thmInfo _ := ci then
         names := names.push n
   let sorted := names.qsort (fun a b => a.toString < b.toString)
